@@ -603,4 +603,44 @@ def PosArg.isString : PosArg → Bool
 def PosArg.value : PosArg → Num
   | .num n => n | .untyped n => n | .string n => n
 
+/-! ## the collation of a call: explicit argument or the parser's `default_collation`
+```
+if len(self) < 3: collation = self.parser.default_collation
+else: collation = self.get_argument(context, 2, required=True, cls=str)
+with CollationManager(collation, self) as manager: …
+```
+(the same lines in `evaluate__contains`, `evaluate__starts_with`, `evaluate__ends_with`,
+`evaluate__substring_functions`, `evaluate__compare`, `evaluate__contains_token`) -/
+
+def callCollation (parserDefault : Collation) (thirdArg : Option Collation) : Collation :=
+  match thirdArg with
+  | none => parserDefault          -- len(self) < 3
+  | some c => c
+
+def fnContains (d : Collation) (c : Option Collation) (a b : Option Str) : Bool :=
+  containsC (callCollation d c) (argDefault a) (argDefault b)
+def fnStartsWith (d : Collation) (c : Option Collation) (a b : Option Str) : Bool :=
+  startsWithC (callCollation d c) (argDefault a) (argDefault b)
+def fnEndsWith (d : Collation) (c : Option Collation) (a b : Option Str) : Bool :=
+  endsWithC (callCollation d c) (argDefault a) (argDefault b)
+def fnSubstringBefore (d : Collation) (c : Option Collation) (a b : Option Str) : Str :=
+  substringBeforeC (callCollation d c) (argDefault a) (argDefault b)
+def fnSubstringAfter (d : Collation) (c : Option Collation) (a b : Option Str) : Str :=
+  substringAfterC (callCollation d c) (argDefault a) (argDefault b)
+def fnCompare (d : Collation) (c : Option Collation) (a b : Option Str) : Option Int :=
+  noneIfEitherNone (compareC (callCollation d c)) a b
+
+/-! ## histories: one parsed expression evaluated several times
+The evaluate methods modelled above keep no state between calls (no attribute of the token is
+written), so the model of a history of calls is the list of the single-call results.  `evalHistory`
+threads an explicit (empty) state to make the statement non-vacuous for the harness: the state type
+is `Unit`. -/
+
+def evalHistory {α β : Type} (f : α → β) : Unit → List α → Unit × List β
+  | st, [] => (st, [])
+  | st, a :: as =>
+    let r := f a                   -- the call reads its arguments only
+    let (st', rs) := evalHistory f st as
+    (st', r :: rs)
+
 end EPV.Strings
